@@ -830,3 +830,779 @@ Proof.
   destruct (tq_handled cb) eqn:Eh; [|discriminate H]. inversion H; subst pr.
   destruct (g_done _ Hg _ Hin Eh) as (t & Ht & Hi & Hv & Hc). exists t. repeat split; auto; congruence.
 Qed.
+
+(* ================================================================== the full Get theorem *)
+
+(* ------------------------------------------------------------------ runs, by the last step *)
+Lemma tq_run_app : forall l1 l2 s,
+  tq_run s (l1 ++ l2) =
+  (fst (tq_run (fst (tq_run s l1)) l2), snd (tq_run s l1) ++ snd (tq_run (fst (tq_run s l1)) l2)).
+Proof.
+  induction l1 as [|a l1 IH]; intros l2 s; cbn [app tq_run fst snd].
+  - destruct (tq_run s l2); reflexivity.
+  - destruct (tq_step s a) as [s1 e]. rewrite IH.
+    destruct (tq_run s1 l1) as [s2 tr]. cbn [fst snd].
+    destruct (tq_run s2 l2) as [s3 tr2]. reflexivity.
+Qed.
+
+Lemma tq_final_snoc : forall s l a, tq_final s (l ++ [a]) = fst (tq_step (tq_final s l) a).
+Proof.
+  intros. unfold tq_final. rewrite tq_run_app. cbn [fst tq_run].
+  destruct (tq_step (fst (tq_run s l)) a). reflexivity.
+Qed.
+
+Lemma tq_trace_snoc : forall s l a, tq_trace s (l ++ [a]) = tq_trace s l ++ [snd (tq_step (tq_final s l) a)].
+Proof.
+  intros. unfold tq_trace, tq_final. rewrite tq_run_app. cbn [snd tq_run].
+  destruct (tq_step (fst (tq_run s l)) a). reflexivity.
+Qed.
+
+Definition tq_ev_done (e : tq_ev) (id : tq_tid) : bool :=
+  match e with TqEDone t => tq_tid_eqb (tq_id t) id | _ => false end.
+
+Lemma tq_done_in_snoc : forall tr e id, tq_done_in (tr ++ [e]) id = tq_done_in tr id || tq_ev_done e id.
+Proof.
+  intros. unfold tq_done_in. rewrite existsb_app. cbn [existsb]. rewrite orb_false_r. reflexivity.
+Qed.
+
+(* ------------------------------------------------------------------ Get2 as a function of the callback records *)
+Definition tq_get2c (cbs : list tq_cb) (id : tq_tid) : option tq_pair :=
+  match find (fun cb => tq_tid_eqb (tq_cb_id cb) id) cbs with
+  | Some cb => if tq_handled cb then Some (tq_result cb, tq_err cb) else None
+  | None => None
+  end.
+
+Lemma tq_get2_c : forall s id, tq_get2 s (TqHTask id) = tq_get2c (tq_cbs s) id.
+Proof. reflexivity. Qed.
+
+Lemma tq_find_app : forall (A : Type) (f : A -> bool) l1 l2,
+  find f (l1 ++ l2) = match find f l1 with Some x => Some x | None => find f l2 end.
+Proof.
+  induction l1 as [|x l1 IH]; intros l2; cbn [app find]; [reflexivity|].
+  destruct (f x); [reflexivity | apply IH].
+Qed.
+
+Lemma tq_get2c_app_some : forall cbs new id pr, tq_get2c cbs id = Some pr -> tq_get2c (cbs ++ new) id = Some pr.
+Proof.
+  intros cbs new id pr H. unfold tq_get2c in *. rewrite tq_find_app.
+  destruct (find (fun cb => tq_tid_eqb (tq_cb_id cb) id) cbs); [exact H | discriminate H].
+Qed.
+
+Lemma tq_find_upd : forall cbs id id' f, (forall cb, tq_cb_id (f cb) = tq_cb_id cb) ->
+  find (fun cb => tq_tid_eqb (tq_cb_id cb) id) (tq_upd_cbs cbs id' f) =
+  if tq_tid_eqb id id' then option_map f (find (fun cb => tq_tid_eqb (tq_cb_id cb) id) cbs)
+  else find (fun cb => tq_tid_eqb (tq_cb_id cb) id) cbs.
+Proof.
+  intros cbs id id' f Hf. unfold tq_upd_cbs.
+  induction cbs as [|cb cbs IH]; cbn [map find option_map]; [destruct (tq_tid_eqb id id'); reflexivity|].
+  destruct (tq_tid_eqb (tq_cb_id cb) id') eqn:E1.
+  - rewrite Hf. destruct (tq_tid_eqb (tq_cb_id cb) id) eqn:E2.
+    + apply tq_tid_eqb_eq in E1, E2. assert (E3 : tq_tid_eqb id id' = true) by (apply tq_tid_eqb_eq; congruence).
+      rewrite E3. reflexivity.
+    + exact IH.
+  - destruct (tq_tid_eqb (tq_cb_id cb) id) eqn:E2.
+    + destruct (tq_tid_eqb id id') eqn:E3; [|reflexivity]. exfalso.
+      apply tq_tid_eqb_eq in E2, E3. subst. rewrite (proj2 (tq_tid_eqb_eq _ _) eq_refl) in E1. discriminate E1.
+    + exact IH.
+Qed.
+
+Lemma tq_get2c_upd_other : forall cbs id id' f, (forall cb, tq_cb_id (f cb) = tq_cb_id cb) ->
+  tq_tid_eqb id id' = false -> tq_get2c (tq_upd_cbs cbs id' f) id = tq_get2c cbs id.
+Proof. intros cbs id id' f Hf Hne. unfold tq_get2c. rewrite tq_find_upd, Hne by exact Hf. reflexivity. Qed.
+
+Lemma tq_find_ex : forall cbs id, (exists cb, In cb cbs /\ tq_cb_id cb = id) ->
+  exists cb0, find (fun cb => tq_tid_eqb (tq_cb_id cb) id) cbs = Some cb0 /\ In cb0 cbs /\ tq_cb_id cb0 = id.
+Proof.
+  intros cbs id (cb & Hin & Hid).
+  destruct (find (fun cb => tq_tid_eqb (tq_cb_id cb) id) cbs) as [cb0|] eqn:E.
+  - apply find_some in E. destruct E as [E1 E2]. apply tq_tid_eqb_eq in E2. exists cb0. auto.
+  - exfalso. pose proof (find_none _ _ E _ Hin) as Hx. cbn in Hx.
+    rewrite (proj2 (tq_tid_eqb_eq _ _) Hid) in Hx. discriminate Hx.
+Qed.
+
+Lemma tq_get2c_done : forall cbs id pr,
+  (exists cb, In cb cbs /\ tq_cb_id cb = id) ->
+  (forall cb, In cb cbs -> tq_cb_id cb = id -> (tq_result cb, tq_err cb) = pr) ->
+  tq_get2c (tq_upd_cbs cbs id (fun cb => {| tq_cb_id := tq_cb_id cb; tq_result := tq_result cb;
+                                             tq_err := tq_err cb; tq_handled := true |})) id = Some pr.
+Proof.
+  intros cbs id pr Hex Hall. unfold tq_get2c. rewrite tq_find_upd by reflexivity.
+  rewrite (proj2 (tq_tid_eqb_eq _ _) eq_refl).
+  destruct (tq_find_ex _ _ Hex) as (cb0 & -> & Hin & Hid). cbn. f_equal. apply Hall; assumption.
+Qed.
+
+Lemma tq_upd_cbs_in : forall cbs id f cb', (forall cb, tq_cb_id (f cb) = tq_cb_id cb) ->
+  In cb' (tq_upd_cbs cbs id f) ->
+  exists cb, In cb cbs /\ tq_cb_id cb = tq_cb_id cb' /\
+    ((tq_tid_eqb (tq_cb_id cb) id = true /\ cb' = f cb) \/ (tq_tid_eqb (tq_cb_id cb) id = false /\ cb' = cb)).
+Proof.
+  intros cbs id f cb' Hf Hin. unfold tq_upd_cbs in Hin. apply in_map_iff in Hin. destruct Hin as (cb & Hcb & Hin).
+  exists cb. split; [exact Hin|]. destruct (tq_tid_eqb (tq_cb_id cb) id) eqn:E; subst cb'.
+  - split; [symmetry; apply Hf | left; auto].
+  - split; [reflexivity | right; auto].
+Qed.
+
+Lemma tq_upd_cbs_in_conv : forall cbs id f cb, (forall cb, tq_cb_id (f cb) = tq_cb_id cb) ->
+  In cb cbs -> exists cb', In cb' (tq_upd_cbs cbs id f) /\ tq_cb_id cb' = tq_cb_id cb.
+Proof.
+  intros cbs id f cb Hf Hin. unfold tq_upd_cbs.
+  exists (if tq_tid_eqb (tq_cb_id cb) id then f cb else cb). split.
+  - apply in_map_iff. exists cb. auto.
+  - destruct (tq_tid_eqb (tq_cb_id cb) id); [apply Hf | reflexivity].
+Qed.
+
+(* ------------------------------------------------------------------ handles *)
+Fixpoint tq_handles_from (i j : nat) (prog : list tq_op) : list tq_handle :=
+  match prog with
+  | [] => []
+  | op :: rest => tq_handle_of i j op :: tq_handles_from i (S j) rest
+  end.
+
+Lemma tq_handles_from_app : forall i a b j,
+  tq_handles_from i j (a ++ b) = tq_handles_from i j a ++ tq_handles_from i (j + length a) b.
+Proof.
+  induction a as [|x a IH]; intros b j; cbn [app tq_handles_from length].
+  - rewrite Nat.add_0_r. reflexivity.
+  - rewrite IH. f_equal. f_equal. f_equal. lia.
+Qed.
+
+Lemma tq_handles_from_nth : forall i l j k,
+  nth_error (tq_handles_from i j l) k = option_map (tq_handle_of i (j + k)) (nth_error l k).
+Proof.
+  induction l as [|x l IH]; intros j k; destruct k; cbn [tq_handles_from nth_error option_map]; try reflexivity.
+  - rewrite Nat.add_0_r. reflexivity.
+  - rewrite IH. f_equal. f_equal. lia.
+Qed.
+
+(* ------------------------------------------------------------------ the program-link invariant *)
+(* a task record is the one the program prescribes for the call it is identified by *)
+Definition tq_task_ok (progs : list (list tq_op)) (t : tq_task) : Prop :=
+  exists op, tq_op_at progs (tq_id t) = Some op /\ tq_op_task (fst (tq_id t)) (snd (tq_id t)) op = Some t.
+
+Definition tq_pc_ids (pc : tq_ppc) : list tq_tid :=
+  match pc with TqPBlocked t => [tq_id t] | TqPIdle => [] end.
+
+Record tq_pinv (progs : list (list tq_op)) (s : tq_state) : Prop := {
+  p_pos : forall i p, nth_error (tq_prods s) i = Some p ->
+      exists pre, nth i progs [] = pre ++ tq_prog p /\ length pre = tq_next p /\
+        tq_handles_from i 0 pre = tq_rets p ++ map TqHTask (tq_pc_ids (tq_ppc_of p));
+  p_blk : forall i p tb, nth_error (tq_prods s) i = Some p -> tq_ppc_of p = TqPBlocked tb -> tq_task_ok progs tb;
+  p_ent : forall t, In t (tq_entered s) -> tq_task_ok progs t;
+  p_cb_bound : forall cb, In cb (tq_cbs s) ->
+      exists p, nth_error (tq_prods s) (fst (tq_cb_id cb)) = Some p /\ snd (tq_cb_id cb) < tq_next p;
+  p_cb_ex : forall i p j h, nth_error (tq_prods s) i = Some p -> j < tq_next p ->
+      tq_op_at progs (i, j) = Some (TqCallback (Some h)) -> exists cb, In cb (tq_cbs s) /\ tq_cb_id cb = (i, j)
+}.
+
+Lemma tq_pinv_init : forall cap progs, tq_pinv progs (tq_init cap progs).
+Proof.
+  intros cap progs. constructor; cbn.
+  - intros i p Hi. rewrite nth_error_map in Hi. destruct (nth_error progs i) as [pr|] eqn:En; [|discriminate Hi].
+    cbn in Hi. inversion Hi; subst p. cbn. exists []. rewrite (nth_error_nth _ _ _ En). auto.
+  - intros i p tb Hi Hb. rewrite nth_error_map in Hi. destruct (nth_error progs i); [|discriminate Hi].
+    cbn in Hi. inversion Hi; subst p. discriminate Hb.
+  - intros t [].
+  - intros cb [].
+  - intros i p j h Hi Hj. rewrite nth_error_map in Hi. destruct (nth_error progs i); [|discriminate Hi].
+    cbn in Hi. inversion Hi; subst p. cbn in Hj. lia.
+Qed.
+
+(* a step that changes no producer, no entered task and keeps the ids of the callback records *)
+Lemma tq_pinv_ext : forall progs s s',
+  tq_prods s' = tq_prods s -> tq_entered s' = tq_entered s ->
+  (forall cb', In cb' (tq_cbs s') -> exists cb, In cb (tq_cbs s) /\ tq_cb_id cb = tq_cb_id cb') ->
+  (forall cb, In cb (tq_cbs s) -> exists cb', In cb' (tq_cbs s') /\ tq_cb_id cb' = tq_cb_id cb) ->
+  tq_pinv progs s -> tq_pinv progs s'.
+Proof.
+  intros progs s s' Hp He H1 H2 [A B C D E]. constructor; rewrite ?Hp, ?He; auto.
+  - intros cb' Hin. destruct (H1 _ Hin) as (cb & Hcb & Hid). rewrite <- Hid. apply D. exact Hcb.
+  - intros i p j h Hi Hj Hop. destruct (E _ _ _ _ Hi Hj Hop) as (cb & Hcb & Hid).
+    destruct (H2 _ Hcb) as (cb' & Hcb' & Hid'). exists cb'. split; [exact Hcb' | congruence].
+Qed.
+
+Lemma tq_op_task_id : forall i j op t, tq_op_task i j op = Some t -> tq_id t = (i, j).
+Proof. intros i j op t H. destruct op as [[h|]|[h|]]; cbn in H; inversion H; reflexivity. Qed.
+
+Lemma tq_op_task_handle : forall i j op t, tq_op_task i j op = Some t -> tq_handle_of i j op = TqHTask (i, j).
+Proof. intros i j op t H. destruct op as [[h|]|[h|]]; cbn in H; try discriminate H; reflexivity. Qed.
+
+(* an idle producer makes a call *)
+Lemma tq_pinv_set : forall progs s s' i p op rest pc hs newE newC,
+  tq_pinv progs s -> nth_error (tq_prods s) i = Some p -> tq_ppc_of p = TqPIdle -> tq_prog p = op :: rest ->
+  tq_prods s' = tq_set_prod (tq_prods s) i (tq_ret_prod p rest pc hs) ->
+  tq_entered s' = tq_entered s ++ newE -> tq_cbs s' = tq_cbs s ++ newC ->
+  hs ++ map TqHTask (tq_pc_ids pc) = [tq_handle_of i (tq_next p) op] ->
+  (forall tb, pc = TqPBlocked tb -> tq_op_task i (tq_next p) op = Some tb) ->
+  (forall t, In t newE -> tq_op_task i (tq_next p) op = Some t) ->
+  (forall cb, In cb newC -> tq_cb_id cb = (i, tq_next p)) ->
+  (forall h, op = TqCallback (Some h) -> exists cb, In cb newC) ->
+  tq_pinv progs s'.
+Proof.
+  intros progs s s' i p op rest pc hs newE newC [A B C D E] Ep Epc Epr Hp He Hc Hhs Hpc HE HC1 HC2.
+  assert (Hi : i < length (tq_prods s)) by (eapply tq_nth_lt; exact Ep).
+  assert (Hnth : forall k, nth_error (tq_prods s') k =
+            if k =? i then Some (tq_ret_prod p rest pc hs) else nth_error (tq_prods s) k).
+  { intros k. rewrite Hp. apply tq_set_prod_nth. exact Hi. }
+  destruct (A _ _ Ep) as (pre & Hpre & Hlen & Hh). rewrite Epc in Hh. cbn [tq_pc_ids map] in Hh. rewrite app_nil_r in Hh.
+  assert (Hop : tq_op_at progs (i, tq_next p) = Some op).
+  { unfold tq_op_at. cbn [fst snd]. rewrite Hpre, Epr, nth_error_app2 by lia.
+    rewrite Hlen, Nat.sub_diag. reflexivity. }
+  assert (Hok : forall t, tq_op_task i (tq_next p) op = Some t -> tq_task_ok progs t).
+  { intros t Ht. exists op. rewrite (tq_op_task_id _ _ _ _ Ht). cbn [fst snd]. auto. }
+  constructor.
+  - intros k q Hk. rewrite Hnth in Hk. destruct (k =? i) eqn:Ek; [|apply A; exact Hk].
+    apply Nat.eqb_eq in Ek. subst k. inversion Hk; subst q. cbn [tq_ret_prod tq_prog tq_next tq_ppc_of tq_rets].
+    exists (pre ++ [op]). rewrite <- app_assoc. cbn [app]. split; [rewrite Hpre, Epr; reflexivity|].
+    split; [rewrite app_length; cbn; lia|].
+    rewrite tq_handles_from_app. cbn [tq_handles_from]. rewrite Hh, Hlen. cbn [Nat.add].
+    rewrite <- app_assoc, Hhs. reflexivity.
+  - intros k q tb Hk Hb. rewrite Hnth in Hk. destruct (k =? i) eqn:Ek; [|eapply B; eauto].
+    inversion Hk; subst q. cbn in Hb. apply Hok. apply Hpc. exact Hb.
+  - intros t Hin. rewrite He in Hin. apply in_app_iff in Hin. destruct Hin as [Hin|Hin]; [apply C; exact Hin|].
+    apply Hok. apply HE. exact Hin.
+  - intros cb Hin. rewrite Hc in Hin. apply in_app_iff in Hin. rewrite Hnth. destruct Hin as [Hin|Hin].
+    + destruct (D _ Hin) as (q & Hq1 & Hq2). destruct (fst (tq_cb_id cb) =? i) eqn:Ek.
+      * apply Nat.eqb_eq in Ek. rewrite Ek, Ep in Hq1. inversion Hq1; subst q.
+        eexists. split; [reflexivity|]. cbn. lia.
+      * exists q. auto.
+    + rewrite (HC1 _ Hin). cbn [fst snd]. rewrite Nat.eqb_refl. eexists. split; [reflexivity|]. cbn. lia.
+  - intros k q j h Hk Hj Hopj. rewrite Hnth in Hk. rewrite Hc. destruct (k =? i) eqn:Ek.
+    + apply Nat.eqb_eq in Ek. subst k. inversion Hk; subst q. cbn in Hj.
+      destruct (Nat.eq_dec j (tq_next p)) as [->|Hne].
+      * rewrite Hop in Hopj. inversion Hopj; subst op. destruct (HC2 _ eq_refl) as (cb & Hcb).
+        exists cb. split; [apply in_app_iff; right; exact Hcb | apply HC1; exact Hcb].
+      * destruct (E _ _ j h Ep ltac:(lia) Hopj) as (cb & Hcb & Hid). exists cb. split; [apply in_app_iff; left; exact Hcb | exact Hid].
+    + destruct (E _ _ _ _ Hk Hj Hopj) as (cb & Hcb & Hid). exists cb. split; [apply in_app_iff; left; exact Hcb | exact Hid].
+Qed.
+
+Lemma tq_pinv_call : forall progs s i c s' e,
+  tq_pinv progs s -> tq_step s (TqProd i c) = (s', e) -> tq_pinv progs s'.
+Proof.
+  intros progs s i c s' e Hinv H.
+  destruct (tq_ev_none_dec e) as [->|Hne]; [apply tq_step_none in H; subst; exact Hinv|].
+  pose proof (tq_step_entered _ _ _ _ H) as He.
+  destruct (tq_step_call _ _ _ _ _ H Hne) as (p & op & rest & Ep & Epc & Epr & _ & _ & Hm).
+  destruct (tq_op_task i (tq_next p) op) as [t|] eqn:Eop.
+  - pose proof (tq_op_task_handle _ _ _ _ Eop) as Hh.
+    assert (HC1 : forall cb, In cb (tq_new_cbs t) -> tq_cb_id cb = (i, tq_next p)).
+    { intros cb Hin. unfold tq_new_cbs in Hin. destruct (tq_kind_of t); [|destruct Hin].
+      destruct Hin as [<-|[]]. cbn. eapply tq_op_task_id; eauto. }
+    assert (HC2 : forall h, op = TqCallback (Some h) -> exists cb, In cb (tq_new_cbs t)).
+    { intros h ->. cbn in Eop. inversion Eop; subst t. unfold tq_new_cbs. cbn. eexists. left. reflexivity. }
+    destruct Hm as (Hcb & [(-> & _ & Hp) | [(-> & _ & _ & Hp) | (-> & _ & _ & Hp)]]); cbn [tq_ent_of] in He.
+    + apply (tq_pinv_set progs s s' i p op rest TqPIdle [TqHTask (tq_id t)] [t] (tq_new_cbs t) Hinv Ep Epc Epr Hp He Hcb);
+        [| | | exact HC1 | exact HC2].
+      * cbn. rewrite Hh, (tq_op_task_id _ _ _ _ Eop). reflexivity.
+      * intros tb Hx. discriminate Hx.
+      * intros t0 [<-|[]]. exact Eop.
+    + rewrite app_nil_r in He. rewrite <- (app_nil_r (tq_entered s)) in He.
+      apply (tq_pinv_set progs s s' i p op rest TqPIdle [TqHTask (tq_id t)] [] (tq_new_cbs t) Hinv Ep Epc Epr Hp He Hcb);
+        [| | | exact HC1 | exact HC2].
+      * cbn. rewrite Hh, (tq_op_task_id _ _ _ _ Eop). reflexivity.
+      * intros tb Hx. discriminate Hx.
+      * intros t0 [].
+    + rewrite app_nil_r in He. rewrite <- (app_nil_r (tq_entered s)) in He.
+      apply (tq_pinv_set progs s s' i p op rest (TqPBlocked t) [] [] (tq_new_cbs t) Hinv Ep Epc Epr Hp He Hcb);
+        [| | | exact HC1 | exact HC2].
+      * cbn. rewrite Hh, (tq_op_task_id _ _ _ _ Eop). reflexivity.
+      * intros tb Hx. inversion Hx; subst tb. exact Eop.
+      * intros t0 [].
+  - assert (HC2 : forall h, op = TqCallback (Some h) -> exists cb : tq_cb, In cb []).
+    { intros h ->. cbn in Eop. discriminate Eop. }
+    assert (HC1 : forall cb : tq_cb, In cb [] -> tq_cb_id cb = (i, tq_next p)) by (intros cb []).
+    assert (Hcb' : forall s1, tq_cbs s1 = tq_cbs s -> tq_cbs s1 = tq_cbs s ++ []) by (intros s1 ->; rewrite app_nil_r; reflexivity).
+    destruct Hm as (_ & Hcb & [(-> & Hp) | (-> & Hp)]); cbn [tq_ent_of] in He;
+      rewrite app_nil_r in He; rewrite <- (app_nil_r (tq_entered s)) in He.
+    + apply (tq_pinv_set progs s s' i p op rest TqPIdle [TqHEmpty] [] [] Hinv Ep Epc Epr Hp He (Hcb' _ Hcb));
+        [| | | exact HC1 | exact HC2].
+      * destruct op as [[h|]|[h|]]; cbn in Eop; try discriminate Eop; cbn.
+        -- reflexivity.
+        -- exfalso. cbn [tq_step] in H. unfold tq_step_prod in H. rewrite Ep, Epc, Epr in H. inversion H.
+      * intros tb Hx. discriminate Hx.
+      * intros t0 [].
+    + apply (tq_pinv_set progs s s' i p op rest TqPIdle [TqHNil] [] [] Hinv Ep Epc Epr Hp He (Hcb' _ Hcb));
+        [| | | exact HC1 | exact HC2].
+      * destruct op as [[h|]|[h|]]; cbn in Eop; try discriminate Eop; cbn.
+        -- exfalso. cbn [tq_step] in H. unfold tq_step_prod in H. rewrite Ep, Epc, Epr in H. inversion H.
+        -- reflexivity.
+      * intros tb Hx. discriminate Hx.
+      * intros t0 [].
+Qed.
+
+(* blocked senders return (admitted by a receive or woken by Close); nothing else changes for the producers *)
+Lemma tq_pinv_same : forall progs s s' newE,
+  tq_pinv progs s ->
+  (forall i p', nth_error (tq_prods s') i = Some p' ->
+     exists p, nth_error (tq_prods s) i = Some p /\ tq_prog p' = tq_prog p /\ tq_next p' = tq_next p /\
+       (p' = p \/ exists tb, tq_ppc_of p = TqPBlocked tb /\ tq_ppc_of p' = TqPIdle /\
+                             tq_rets p' = tq_rets p ++ [TqHTask (tq_id tb)])) ->
+  (forall i p, nth_error (tq_prods s) i = Some p ->
+     exists p', nth_error (tq_prods s') i = Some p' /\ tq_next p' = tq_next p) ->
+  tq_entered s' = tq_entered s ++ newE ->
+  (forall t, In t newE -> exists i p, nth_error (tq_prods s) i = Some p /\ tq_ppc_of p = TqPBlocked t) ->
+  tq_cbs s' = tq_cbs s -> tq_pinv progs s'.
+Proof.
+  intros progs s s' newE [A B C D E] H1 H2 He HE Hc. constructor.
+  - intros i p' Hi. destruct (H1 _ _ Hi) as (p & Hp & Hpr & Hn & [->|(tb & Hb & Hb' & Hr)]); [apply A; exact Hp|].
+    destruct (A _ _ Hp) as (pre & Hpre & Hlen & Hh). exists pre. rewrite Hpr, Hn, Hb', Hr. split; [exact Hpre|].
+    split; [exact Hlen|]. rewrite Hh, Hb. cbn. rewrite app_nil_r. reflexivity.
+  - intros i p' tb Hi Hb. destruct (H1 _ _ Hi) as (p & Hp & _ & _ & [->|(tb0 & _ & Hb' & _)]); [eapply B; eauto | congruence].
+  - intros t Hin. rewrite He in Hin. apply in_app_iff in Hin. destruct Hin as [Hin|Hin]; [apply C; exact Hin|].
+    destruct (HE _ Hin) as (i & p & Hp & Hb). eapply B; eauto.
+  - intros cb Hin. rewrite Hc in Hin. destruct (D _ Hin) as (p & Hp & Hlt).
+    destruct (H2 _ _ Hp) as (p' & Hp' & Hn). exists p'. split; [exact Hp' | lia].
+  - intros i p' j h Hi Hj Hop. rewrite Hc. destruct (H1 _ _ Hi) as (p & Hp & _ & Hn & _).
+    eapply E; eauto. lia.
+Qed.
+
+Lemma tq_pinv_recv : forall progs s k s' e,
+  tq_inv progs s -> tq_pinv progs s -> tq_step s (TqRecv k) = (s', e) -> tq_pinv progs s'.
+Proof.
+  intros progs s k s' e Hinv Hp H.
+  destruct (tq_ev_none_dec e) as [->|Hne]; [apply tq_step_none in H; subst; exact Hp|].
+  pose proof (tq_step_entered _ _ _ _ H) as He.
+  destruct (tq_step_recv _ _ _ _ H Hne) as (t & adm & -> & _ & _ & _ & Hcbs & Hm).
+  destruct adm as [[i' t']|]; cbn [tq_ent_of snd] in He.
+  - destruct Hm as (k' & Hk' & _ & Hpr).
+    assert (Hin : In (i', t') (tq_sendq s)) by (eapply nth_error_In; exact Hk').
+    destruct (inv_sendq _ _ Hinv _ _ Hin) as (p & Ep & Epc).
+    assert (Hi : i' < length (tq_prods s)) by (eapply tq_nth_lt; exact Ep).
+    assert (Hnth : forall j, nth_error (tq_prods s') j =
+              if j =? i' then Some {| tq_prog := tq_prog p; tq_next := tq_next p; tq_ppc_of := TqPIdle;
+                                      tq_rets := tq_rets p ++ [TqHTask (tq_id t')] |}
+              else nth_error (tq_prods s) j).
+    { intros j. rewrite Hpr. unfold tq_unblock. cbn [fst snd]. rewrite Ep. apply tq_set_prod_nth. exact Hi. }
+    apply (tq_pinv_same progs s s' [t'] Hp); auto.
+    + intros j q Hj. rewrite Hnth in Hj. destruct (j =? i') eqn:Ej.
+      * apply Nat.eqb_eq in Ej. subst j. inversion Hj; subst q. exists p. cbn. repeat split; auto.
+        right. exists t'. auto.
+      * exists q. auto.
+    + intros j q Hj. rewrite Hnth. destruct (j =? i') eqn:Ej.
+      * apply Nat.eqb_eq in Ej. subst j. rewrite Ep in Hj. inversion Hj; subst q. eexists. split; [reflexivity|]. reflexivity.
+      * exists q. auto.
+    + intros t0 [<-|[]]. exists i', p. auto.
+  - destruct Hm as (_ & _ & Hpr). apply (tq_pinv_same progs s s' [] Hp); auto.
+    + intros j q Hj. rewrite Hpr in Hj. exists q. auto.
+    + intros j q Hj. rewrite Hpr. exists q. auto.
+    + intros t0 [].
+Qed.
+
+Lemma tq_pinv_close : forall progs s s' e,
+  tq_pinv progs s -> tq_step s TqClose = (s', e) -> tq_pinv progs s'.
+Proof.
+  intros progs s s' e Hp H.
+  destruct (tq_ev_none_dec e) as [->|Hne]; [apply tq_step_none in H; subst; exact Hp|].
+  pose proof (tq_step_entered _ _ _ _ H) as He.
+  destruct (tq_step_close _ _ _ H Hne) as (_ & _ & _ & Hpr & Hcbs & _ & ->). cbn [tq_ent_of] in He.
+  apply (tq_pinv_same progs s s' [] Hp); auto.
+  - intros j q Hj. rewrite Hpr, nth_error_map in Hj. destruct (nth_error (tq_prods s) j) as [p|]; [|discriminate Hj].
+    cbn in Hj. inversion Hj; subst q. exists p. unfold tq_wake. destruct (tq_ppc_of p) as [|tb] eqn:Eb; cbn; repeat split; auto.
+    right. exists tb. auto.
+  - intros j p Hj. rewrite Hpr, nth_error_map, Hj. cbn. eexists. split; [reflexivity|].
+    unfold tq_wake. destruct (tq_ppc_of p); reflexivity.
+  - intros t0 [].
+Qed.
+
+Lemma tq_pinv_step : forall progs s a s' e, tq_step s a = (s', e) ->
+  tq_inv progs s -> tq_pinv progs s -> tq_pinv progs s'.
+Proof.
+  intros progs s a s' e H Hinv Hp.
+  destruct (tq_ev_none_dec e) as [->|Hne]; [apply tq_step_none in H; subst; exact Hp|].
+  destruct a.
+  - eapply tq_pinv_call; eauto.
+  - eapply tq_pinv_recv; eauto.
+  - pose proof (tq_step_entered _ _ _ _ H) as He.
+    destruct (tq_step_exec s TqStore s' e (or_introl eq_refl) H) as (Hpr & _ & _).
+    destruct (tq_step_store _ _ _ H Hne) as (t & _ & _ & _ & Hcbs).
+    assert (He' : tq_entered s' = tq_entered s).
+    { rewrite He. cbn [tq_step] in H. destruct (tq_cons s); inversion H; subst; cbn; apply app_nil_r. }
+    apply (tq_pinv_ext progs s s' Hpr He'); [| |exact Hp]; rewrite Hcbs; destruct (tq_kind_of t); eauto.
+    + intros cb' Hin. apply tq_upd_cbs_in in Hin; [|reflexivity]. destruct Hin as (cb & Hcb & Hid & _). eauto.
+    + intros cb Hin. apply tq_upd_cbs_in_conv; [reflexivity | exact Hin].
+  - pose proof (tq_step_entered _ _ _ _ H) as He.
+    destruct (tq_step_exec s TqDone s' e (or_intror eq_refl) H) as (Hpr & _ & _).
+    destruct (tq_step_done _ _ _ H Hne) as (t & _ & _ & _ & Hcbs).
+    assert (He' : tq_entered s' = tq_entered s).
+    { rewrite He. cbn [tq_step] in H. destruct (tq_cons s); inversion H; subst; cbn; apply app_nil_r. }
+    apply (tq_pinv_ext progs s s' Hpr He'); [| |exact Hp]; rewrite Hcbs; destruct (tq_kind_of t); eauto.
+    + intros cb' Hin. apply tq_upd_cbs_in in Hin; [|reflexivity]. destruct Hin as (cb & Hcb & Hid & _). eauto.
+    + intros cb Hin. apply tq_upd_cbs_in_conv; [reflexivity | exact Hin].
+  - eapply tq_pinv_close; eauto.
+Qed.
+
+(* ------------------------------------------------------------------ the Done invariant *)
+Record tq_dinv (progs : list (list tq_op)) (s : tq_state) (tr : list tq_ev) : Prop := {
+  d_get : forall i j h, tq_op_at progs (i, j) = Some (TqCallback (Some h)) -> tq_done_in tr (i, j) = true ->
+      tq_get2c (tq_cbs s) (i, j) = Some h;
+  d_not : forall id cb, tq_done_in tr id = false -> In cb (tq_cbs s) -> tq_cb_id cb = id -> tq_handled cb = false;
+  d_recv : forall id, tq_done_in tr id = true ->
+      exists t, In t (tq_received s) /\ tq_id t = id /\ tq_cons_task s <> Some t
+}.
+
+Lemma tq_lim_le_next : forall progs s i p, tq_inv progs s -> nth_error (tq_prods s) i = Some p -> tq_lim p <= tq_next p.
+Proof.
+  intros progs s i p Hinv Hp. unfold tq_lim. destruct (tq_ppc_of p) as [|tb] eqn:Eb; [lia|].
+  destruct (inv_blk _ _ Hinv _ _ _ Hp Eb) as (Hid & Hn & _). rewrite Hid. cbn. lia.
+Qed.
+
+Lemma tq_received_nodup : forall progs s, tq_inv progs s -> tq_fifo s -> NoDup (map tq_id (tq_received s)).
+Proof.
+  intros progs s Hinv Hf. pose proof (inv_nodup _ _ Hinv) as Hn. rewrite Hf, map_app in Hn.
+  eapply tq_nodup_app_l. exact Hn.
+Qed.
+
+Ltac tq_nd Hd := rewrite tq_done_in_snoc in Hd; cbn [tq_ev_done] in Hd; rewrite orb_false_r in Hd.
+
+Lemma tq_dinv_step : forall progs s tr a s' e, tq_step s a = (s', e) ->
+  tq_inv progs s -> tq_fifo s -> tq_ginv s -> tq_pinv progs s -> tq_dinv progs s tr ->
+  tq_dinv progs s' (tr ++ [e]).
+Proof.
+  intros progs s tr a s' e H Hinv Hf Hg Hp [DG DN DR].
+  destruct (tq_ev_none_dec e) as [->|Hne].
+  { apply tq_step_none in H; subst. constructor.
+    - intros i0 j0 h Hop Hd. tq_nd Hd. eapply DG; eauto.
+    - intros id cb Hd. tq_nd Hd. apply DN. exact Hd.
+    - intros id Hd. tq_nd Hd. apply DR. exact Hd. }
+  pose proof (tq_inv_step _ _ _ _ _ H Hinv) as Hinv'. pose proof (tq_fifo_step _ _ _ _ H Hf) as Hf'.
+  pose proof (tq_step_received _ _ _ _ H) as Hr.
+  pose proof (tq_received_nodup _ _ Hinv Hf) as Hnd. pose proof (tq_received_nodup _ _ Hinv' Hf') as Hnd'.
+  destruct a as [i c|k| | |].
+  - (* call *)
+    destruct (tq_step_call _ _ _ _ _ H Hne) as (p & op & rest & Ep & Epc & Epr & _ & Hcons & Hm).
+    assert (Hnd0 : forall id, tq_ev_done e id = false).
+    { intros id. destruct (tq_op_task i (tq_next p) op);
+        [destruct Hm as (_ & [(-> & _)|[(-> & _)|(-> & _)]]) | destruct Hm as (_ & _ & [(-> & _)|(-> & _)])]; reflexivity. }
+    assert (Hrcv : tq_received s' = tq_received s).
+    { rewrite Hr. destruct (tq_op_task i (tq_next p) op);
+        [destruct Hm as (_ & [(-> & _)|[(-> & _)|(-> & _)]]) | destruct Hm as (_ & _ & [(-> & _)|(-> & _)])]; cbn; apply app_nil_r. }
+    assert (Hcbs : exists new, tq_cbs s' = tq_cbs s ++ new /\ forall cb, In cb new -> tq_handled cb = false).
+    { destruct (tq_op_task i (tq_next p) op) as [t|] eqn:Eop.
+      - destruct Hm as (Hc & _). exists (tq_new_cbs t). split; [exact Hc|].
+        unfold tq_new_cbs. destruct (tq_kind_of t); intros cb Hin; [|destruct Hin]. destruct Hin as [<-|[]]. reflexivity.
+      - destruct Hm as (_ & Hc & _). exists []. rewrite app_nil_r. split; [exact Hc | intros cb []]. }
+    destruct Hcbs as (new & Hcbs & Hnew).
+    assert (Hct : tq_cons_task s' = tq_cons_task s) by (unfold tq_cons_task; rewrite Hcons; reflexivity).
+    constructor.
+    + intros i0 j0 h Hop Hd. rewrite tq_done_in_snoc, Hnd0, orb_false_r in Hd. rewrite Hcbs.
+      apply tq_get2c_app_some. eapply DG; eauto.
+    + intros id cb Hd Hin Hid. rewrite tq_done_in_snoc, Hnd0, orb_false_r in Hd. rewrite Hcbs in Hin.
+      apply in_app_iff in Hin. destruct Hin as [Hin|Hin]; [eapply DN; eauto | apply Hnew; exact Hin].
+    + intros id Hd. rewrite tq_done_in_snoc, Hnd0, orb_false_r in Hd. rewrite Hrcv, Hct. apply DR. exact Hd.
+  - (* recv *)
+    destruct (tq_step_recv _ _ _ _ H Hne) as (t & adm & -> & Hc0 & Hc1 & _ & Hcbs & _).
+    cbn [tq_rcv_of] in Hr.
+    constructor.
+    + intros i0 j0 h Hop Hd. rewrite tq_done_in_snoc in Hd. cbn [tq_ev_done] in Hd. rewrite orb_false_r in Hd.
+      rewrite Hcbs. eapply DG; eauto.
+    + intros id cb Hd Hin Hid. rewrite tq_done_in_snoc in Hd. cbn [tq_ev_done] in Hd. rewrite orb_false_r in Hd.
+      rewrite Hcbs in Hin. eapply DN; eauto.
+    + intros id Hd. rewrite tq_done_in_snoc in Hd. cbn [tq_ev_done] in Hd. rewrite orb_false_r in Hd.
+      destruct (DR _ Hd) as (t0 & Ht0 & Hid & _). exists t0. rewrite Hr.
+      split; [apply in_app_iff; left; exact Ht0|]. split; [exact Hid|].
+      unfold tq_cons_task. rewrite Hc1. intros Hx. inversion Hx; subst t0.
+      rewrite Hr, map_app in Hnd'. cbn [map] in Hnd'. apply NoDup_remove_2 in Hnd'. apply Hnd'.
+      rewrite app_nil_r. apply in_map. exact Ht0.
+  - (* store *)
+    destruct (tq_step_store _ _ _ H Hne) as (t & Hc0 & Hc1 & Hrcv & Hcbs).
+    assert (He : e = TqEStore t).
+    { cbn [tq_step] in H. rewrite Hc0 in H. inversion H. reflexivity. }
+    subst e.
+    assert (Hcur : In t (tq_received s)) by (apply (g_cur _ Hg); unfold tq_cons_task; rewrite Hc0; reflexivity).
+    assert (Hnot : forall id, tq_done_in tr id = true -> tq_tid_eqb id (tq_id t) = false).
+    { intros id Hd. destruct (tq_tid_eqb id (tq_id t)) eqn:E; [|reflexivity]. exfalso.
+      apply tq_tid_eqb_eq in E. destruct (DR _ Hd) as (t0 & Ht0 & Hid & Hnc). apply Hnc.
+      unfold tq_cons_task. rewrite Hc0. f_equal. apply (tq_nodup_id_inj (tq_received s) t t0 Hnd Hcur Ht0). congruence. }
+    constructor.
+    + intros i0 j0 h Hop Hd. rewrite tq_done_in_snoc in Hd. cbn [tq_ev_done] in Hd. rewrite orb_false_r in Hd.
+      rewrite Hcbs. destruct (tq_kind_of t); [|eapply DG; eauto].
+      rewrite tq_get2c_upd_other; [eapply DG; eauto | reflexivity | apply Hnot; exact Hd].
+    + intros id cb' Hd Hin Hid. rewrite tq_done_in_snoc in Hd. cbn [tq_ev_done] in Hd. rewrite orb_false_r in Hd.
+      rewrite Hcbs in Hin. destruct (tq_kind_of t); [|eapply DN; eauto].
+      apply tq_upd_cbs_in in Hin; [|reflexivity]. destruct Hin as (cb & Hcb & Hid' & [(_ & ->)|(_ & ->)]); cbn;
+        eapply DN; eauto; congruence.
+    + intros id Hd. rewrite tq_done_in_snoc in Hd. cbn [tq_ev_done] in Hd. rewrite orb_false_r in Hd.
+      destruct (DR _ Hd) as (t0 & Ht0 & Hid & Hnc). exists t0. rewrite Hrcv. repeat split; auto.
+      unfold tq_cons_task in *. rewrite Hc0 in Hnc. rewrite Hc1. exact Hnc.
+  - (* done *)
+    destruct (tq_step_done _ _ _ H Hne) as (t & Hc0 & Hc1 & Hrcv & Hcbs).
+    assert (He : e = TqEDone t).
+    { cbn [tq_step] in H. rewrite Hc0 in H. inversion H. reflexivity. }
+    subst e.
+    assert (Hcur : In t (tq_received s)) by (apply (g_cur _ Hg); unfold tq_cons_task; rewrite Hc0; reflexivity).
+    assert (Hent : In t (tq_entered s)) by (rewrite Hf; apply in_app_iff; left; exact Hcur).
+    constructor.
+    + intros i0 j0 h Hop Hd. rewrite tq_done_in_snoc in Hd. cbn [tq_ev_done] in Hd. rewrite Hcbs.
+      destruct (tq_tid_eqb (tq_id t) (i0, j0)) eqn:E.
+      * apply tq_tid_eqb_eq in E.
+        destruct (p_ent _ _ Hp _ Hent) as (op & Hop' & Hot). rewrite E in Hop', Hot. cbn [fst snd] in Hot.
+        rewrite Hop in Hop'. inversion Hop'; subst op. cbn in Hot. injection Hot as Ht.
+        assert (Hk : tq_kind_of t = TqKCallback) by (rewrite <- Ht; reflexivity).
+        assert (Hh : tq_handler t = h) by (rewrite <- Ht; reflexivity).
+        rewrite Hk, E. apply tq_get2c_done.
+        -- destruct (inv_bound _ _ Hinv _ Hent) as (p & Hpp & Hlt). rewrite E in Hpp, Hlt. cbn [fst snd] in Hpp, Hlt.
+           pose proof (tq_lim_le_next _ _ _ _ Hinv Hpp) as Hle.
+           eapply (p_cb_ex _ _ Hp); eauto. lia.
+        -- intros cb Hin Hid. rewrite <- Hh. eapply (g_stored _ Hg); eauto. congruence.
+      * rewrite orb_false_r in Hd. destruct (tq_kind_of t); [|eapply DG; eauto].
+        rewrite tq_get2c_upd_other; [eapply DG; eauto | reflexivity |].
+        destruct (tq_tid_eqb (i0, j0) (tq_id t)) eqn:E2; [|reflexivity].
+        apply tq_tid_eqb_eq in E2. rewrite E2, (proj2 (tq_tid_eqb_eq _ _) eq_refl) in E. discriminate E.
+    + intros id cb' Hd Hin Hid. rewrite tq_done_in_snoc in Hd. cbn [tq_ev_done] in Hd.
+      apply orb_false_iff in Hd. destruct Hd as [Hd Hne'].
+      rewrite Hcbs in Hin. destruct (tq_kind_of t); [|eapply DN; eauto].
+      apply tq_upd_cbs_in in Hin; [|reflexivity]. destruct Hin as (cb & Hcb & Hid' & [(Heq & ->)|(_ & ->)]).
+      * exfalso. apply tq_tid_eqb_eq in Heq. rewrite <- Heq, Hid', Hid, (proj2 (tq_tid_eqb_eq _ _) eq_refl) in Hne'.
+        discriminate Hne'.
+      * eapply DN; eauto.
+    + intros id Hd. rewrite tq_done_in_snoc in Hd. cbn [tq_ev_done] in Hd. rewrite Hrcv.
+      unfold tq_cons_task at 1. rewrite Hc1.
+      destruct (tq_done_in tr id) eqn:Ed.
+      * destruct (DR _ Ed) as (t0 & Ht0 & Hid & _). exists t0. repeat split; auto. discriminate.
+      * cbn [orb] in Hd. apply tq_tid_eqb_eq in Hd. exists t. repeat split; auto. discriminate.
+  - (* close *)
+    destruct (tq_step_close _ _ _ H Hne) as (_ & _ & _ & _ & Hcbs & Hcons & ->).
+    cbn [tq_rcv_of] in Hr. rewrite app_nil_r in Hr.
+    assert (Hct : tq_cons_task s' = tq_cons_task s) by (unfold tq_cons_task; rewrite Hcons; reflexivity).
+    constructor.
+    + intros i0 j0 h Hop Hd. tq_nd Hd. rewrite Hcbs. eapply DG; eauto.
+    + intros id cb Hd. tq_nd Hd. rewrite Hcbs. apply DN. exact Hd.
+    + intros id Hd. tq_nd Hd. rewrite Hr, Hct. apply DR. exact Hd.
+Qed.
+
+Lemma tq_dinv_init : forall cap progs, tq_dinv progs (tq_init cap progs) [].
+Proof. intros. constructor; cbn; intros; try discriminate. contradiction. Qed.
+
+Lemma tq_full_reachable : forall cap progs sched,
+  let s := tq_final (tq_init cap progs) sched in
+  tq_inv progs s /\ tq_fifo s /\ tq_ginv s /\ tq_pinv progs s /\ tq_dinv progs s (tq_trace (tq_init cap progs) sched).
+Proof.
+  intros cap progs sched. induction sched as [|a sched IH] using rev_ind.
+  - cbn. split; [apply tq_inv_init|]. split; [reflexivity|]. split.
+    + constructor; cbn; [intros cb [] | intros t cb Hx; discriminate Hx | intros t Hx; discriminate Hx].
+    + split; [apply tq_pinv_init | apply tq_dinv_init].
+  - cbn zeta in *. destruct IH as (Hi & Hf & Hg & Hp & Hd).
+    rewrite tq_final_snoc, tq_trace_snoc.
+    destruct (tq_step (tq_final (tq_init cap progs) sched) a) as [s' e] eqn:E. cbn [fst snd].
+    split; [eapply tq_inv_step; eauto|]. split; [eapply tq_fifo_step; eauto|].
+    split; [eapply tq_ginv_step; eauto|]. split; [eapply tq_pinv_step; eauto | eapply tq_dinv_step; eauto].
+Qed.
+
+(* THE FULL STATEMENT: Get2 of the task of call j of producer i is blocked exactly until that
+   task's Done step and from then on returns the pair the PROGRAM gave to that call *)
+Lemma tq_get_full_l : forall cap progs sched i j h,
+  nth_error (nth i progs []) j = Some (TqCallback (Some h)) ->
+  tq_get2 (tq_final (tq_init cap progs) sched) (TqHTask (i, j))
+    = if tq_done_in (tq_trace (tq_init cap progs) sched) (i, j) then Some h else None.
+Proof.
+  intros cap progs sched i j h Hop.
+  destruct (tq_full_reachable cap progs sched) as (_ & _ & _ & _ & Hd). cbn zeta in Hd.
+  rewrite tq_get2_c. destruct (tq_done_in (tq_trace (tq_init cap progs) sched) (i, j)) eqn:Ed.
+  - eapply (d_get _ _ _ Hd); eauto.
+  - unfold tq_get2c. destruct (find (fun cb => tq_tid_eqb (tq_cb_id cb) (i, j)) (tq_cbs (tq_final (tq_init cap progs) sched))) as [cb|] eqn:Ef; [|reflexivity].
+    apply find_some in Ef. destruct Ef as [Hin Hid]. apply tq_tid_eqb_eq in Hid.
+    rewrite (d_not _ _ _ Hd _ _ Ed Hin Hid). reflexivity.
+Qed.
+
+(* what call j of producer i returned to its caller is the handle of THAT call *)
+Lemma tq_ret_handle_l : forall cap progs sched i p j hd,
+  let s := tq_final (tq_init cap progs) sched in
+  nth_error (tq_prods s) i = Some p -> nth_error (tq_rets p) j = Some hd ->
+  exists op, nth_error (nth i progs []) j = Some op /\ hd = tq_handle_of i j op.
+Proof.
+  intros cap progs sched i p j hd s Hp Hj.
+  destruct (tq_full_reachable cap progs sched) as (_ & _ & _ & Hpi & _). fold s in Hpi.
+  destruct (p_pos _ _ Hpi _ _ Hp) as (pre & Hpre & Hlen & Hh).
+  assert (Hlt : j < length (tq_rets p)) by (apply nth_error_Some; congruence).
+  assert (Hn : nth_error (tq_handles_from i 0 pre) j = Some hd).
+  { rewrite Hh, nth_error_app1 by exact Hlt. exact Hj. }
+  rewrite tq_handles_from_nth in Hn. cbn [Nat.add] in Hn.
+  destruct (nth_error pre j) as [op|] eqn:Eo; [|discriminate Hn]. cbn in Hn. inversion Hn.
+  exists op. split; [|reflexivity]. rewrite Hpre, nth_error_app1; [exact Eo|].
+  apply nth_error_Some. congruence.
+Qed.
+
+(* ------------------------------------------------------------------ Get2 waiter threads *)
+Lemma tq_grun_app : forall l1 l2 g,
+  tq_grun g (l1 ++ l2) =
+  (fst (tq_grun (fst (tq_grun g l1)) l2), snd (tq_grun g l1) ++ snd (tq_grun (fst (tq_grun g l1)) l2)).
+Proof.
+  induction l1 as [|a l1 IH]; intros l2 g; cbn [app tq_grun fst snd].
+  - destruct (tq_grun g l2); reflexivity.
+  - destruct (tq_gstep g a) as [g1 e]. rewrite IH.
+    destruct (tq_grun g1 l1) as [g2 tr]. cbn [fst snd].
+    destruct (tq_grun g2 l2) as [g3 tr2]. reflexivity.
+Qed.
+
+Lemma tq_gfinal_snoc : forall g l a, tq_gfinal g (l ++ [a]) = fst (tq_gstep (tq_gfinal g l) a).
+Proof.
+  intros. unfold tq_gfinal. rewrite tq_grun_app. cbn [fst tq_grun].
+  destruct (tq_gstep (fst (tq_grun g l)) a). reflexivity.
+Qed.
+
+Lemma tq_gtrace_snoc : forall g l a, tq_gtrace g (l ++ [a]) = tq_gtrace g l ++ [snd (tq_gstep (tq_gfinal g l) a)].
+Proof.
+  intros. unfold tq_gtrace, tq_gfinal. rewrite tq_grun_app. cbn [snd tq_grun].
+  destruct (tq_gstep (fst (tq_grun g l)) a). reflexivity.
+Qed.
+
+(* the queue inside a run with waiters is the queue run on its own schedule: waiters never act on it *)
+Lemma tq_gbase_run : forall gs g,
+  tq_base (tq_gfinal g gs) = tq_final (tq_base g) (tq_gbase_sched gs) /\
+  tq_gbase_trace (tq_gtrace g gs) = tq_trace (tq_base g) (tq_gbase_sched gs).
+Proof.
+  induction gs as [|a gs IH]; intros g; [split; reflexivity|].
+  unfold tq_gfinal, tq_gtrace. cbn [tq_grun]. destruct (tq_gstep g a) as [g1 e] eqn:E.
+  specialize (IH g1). unfold tq_gfinal, tq_gtrace in IH. destruct (tq_grun g1 gs) as [g2 tr]. cbn [fst snd] in *.
+  destruct IH as [IH1 IH2]. destruct a as [b|hd]; cbn [tq_gstep] in E.
+  - destruct (tq_step (tq_base g) b) as [s' eb] eqn:Eb. inversion E; subst g1 e. cbn [tq_base] in *.
+    cbn [tq_gbase_sched flat_map app tq_gbase_trace]. fold (tq_gbase_sched gs). fold (tq_gbase_trace tr).
+    rewrite tq_final_cons, tq_trace_cons, Eb. cbn [fst snd]. rewrite IH1, IH2. split; reflexivity.
+  - inversion E; subst g1 e. cbn [tq_base] in *.
+    cbn [tq_gbase_sched flat_map app]. fold (tq_gbase_sched gs). rewrite IH1. split; [reflexivity|].
+    destruct (tq_get2 (tq_base g) hd); cbn [tq_gbase_trace flat_map app]; exact IH2.
+Qed.
+
+Lemma tq_flat_map_snoc : forall (A B : Type) (f : A -> list B) l x, flat_map f (l ++ [x]) = flat_map f l ++ f x.
+Proof. intros. rewrite flat_map_app. cbn. rewrite app_nil_r. reflexivity. Qed.
+
+Lemma tq_tid_eqb_sym : forall a b, tq_tid_eqb a b = tq_tid_eqb b a.
+Proof. intros [a1 a2] [b1 b2]. unfold tq_tid_eqb. cbn. rewrite (Nat.eqb_sym a1), (Nat.eqb_sym a2). reflexivity. Qed.
+
+(* a user task's Done step does not touch the callback records; every non-Done step leaves Get2 of
+   reachable callback tasks alone -- both are consequences of tq_get_full_l, used below *)
+Lemma tq_get_waiters_l : forall cap progs gs i j h,
+  nth_error (nth i progs []) j = Some (TqCallback (Some h)) ->
+  let g := tq_gfinal (tq_ginit cap progs) gs in
+  let done := tq_done_in (tq_gbase_trace (tq_gtrace (tq_ginit cap progs) gs)) (i, j) in
+  tq_base g = tq_final (tq_init cap progs) (tq_gbase_sched gs) /\
+  tq_gbase_trace (tq_gtrace (tq_ginit cap progs) gs) = tq_trace (tq_init cap progs) (tq_gbase_sched gs) /\
+  forall w, In w (tq_waiters g) -> tq_w_on w = TqHTask (i, j) ->
+    tq_w_ret w = if done then Some h else None.
+Proof.
+  intros cap progs gs i j h Hop. cbn zeta.
+  destruct (tq_gbase_run gs (tq_ginit cap progs)) as [HB HT]. cbn [tq_ginit tq_base] in HB, HT.
+  split; [exact HB|]. split; [exact HT|]. clear HB HT.
+  induction gs as [|a gs IH] using rev_ind; [intros w []|].
+  destruct (tq_gbase_run gs (tq_ginit cap progs)) as [HB HT]. cbn [tq_ginit tq_base] in HB, HT.
+  pose proof (tq_get_full_l cap progs (tq_gbase_sched gs) i j h Hop) as HG. rewrite <- HB, <- HT in HG.
+  destruct (tq_gbase_run (gs ++ [a]) (tq_ginit cap progs)) as [HB' HT']. cbn [tq_ginit tq_base] in HB', HT'.
+  pose proof (tq_get_full_l cap progs (tq_gbase_sched (gs ++ [a])) i j h Hop) as HG'. rewrite <- HB', <- HT' in HG'.
+  revert HG'. rewrite tq_gfinal_snoc, tq_gtrace_snoc. unfold tq_gbase_trace at 1 2. rewrite tq_flat_map_snoc.
+  fold (tq_gbase_trace (tq_gtrace (tq_ginit cap progs) gs)).
+  set (g := tq_gfinal (tq_ginit cap progs) gs) in *.
+  set (tr := tq_gbase_trace (tq_gtrace (tq_ginit cap progs) gs)) in *.
+  destruct a as [b|hd]; cbn [tq_gstep].
+  - destruct (tq_step (tq_base g) b) as [s' e] eqn:Eb. cbn [fst snd tq_base tq_waiters].
+    fold (tq_done_in (tr ++ [e]) (i, j)). rewrite tq_done_in_snoc. intros HG' w Hin Hon.
+    assert (Hsame : forall w0, In w0 (tq_waiters g) -> tq_w_on w0 = TqHTask (i, j) ->
+              tq_get2 s' (TqHTask (i, j)) = tq_get2 (tq_base g) (TqHTask (i, j)) \/ tq_w_ret w0 <> None ->
+              tq_w_ret w0 = if tq_done_in tr (i, j) || tq_ev_done e (i, j) then Some h else None).
+    { intros w0 Hin0 Hon0 Hs. rewrite (IH _ Hin0 Hon0). destruct Hs as [Hs|Hs].
+      - rewrite <- HG', Hs, HG. reflexivity.
+      - rewrite (IH _ Hin0 Hon0) in Hs. destruct (tq_done_in tr (i, j)); [reflexivity | congruence]. }
+    destruct (tq_ev_none_dec e) as [->|Hne].
+    { apply tq_step_none in Eb. subst s'. apply Hsame; auto. }
+    destruct e as [? t|? t|? t| | |t ?|t|t|?|]; try (apply Hsame; auto; left;
+      rewrite HG', HG; cbn [tq_ev_done]; rewrite orb_false_r; reflexivity).
+    destruct b; try (cbn [tq_step] in Eb; unfold tq_step_prod, tq_select, tq_with_prods in Eb; tq_break; discriminate).
+    destruct (tq_step_done _ _ _ Eb Hne) as (t' & Hc0 & _ & _ & Hcbs).
+    assert (t' = t) by (cbn [tq_step] in Eb; rewrite Hc0 in Eb; inversion Eb; reflexivity). subst t'.
+    destruct (tq_kind_of t) eqn:Ek.
+    + apply in_map_iff in Hin. destruct Hin as (w0 & <- & Hin0). unfold tq_release in *.
+      destruct (tq_w_parked_on w0 (tq_id t)) eqn:Epk; cbn [tq_w_on tq_w_ret] in *.
+      * rewrite Hon, HG'. reflexivity.
+      * rewrite (IH _ Hin0 Hon). unfold tq_w_parked_on in Epk. rewrite Hon in Epk.
+        pose proof (IH _ Hin0 Hon) as Hr. destruct (tq_done_in tr (i, j)); [reflexivity|].
+        rewrite Hr in Epk. cbn [orb tq_ev_done]. rewrite tq_tid_eqb_sym, Epk. reflexivity.
+    + apply Hsame; auto. left. rewrite !tq_get2_c, Hcbs. reflexivity.
+  - cbn [fst snd tq_base tq_waiters].
+    assert (Hnew : forall w, In w (tq_waiters g ++ [{| tq_w_on := hd; tq_w_ret := tq_get2 (tq_base g) hd |}]) ->
+              tq_w_on w = TqHTask (i, j) -> tq_w_ret w = if tq_done_in tr (i, j) then Some h else None).
+    { intros w Hin Hon. apply in_app_iff in Hin. destruct Hin as [Hin|[<-|[]]]; [apply IH; assumption|].
+      cbn [tq_w_on tq_w_ret] in *. subst hd. exact HG. }
+    destruct (tq_get2 (tq_base g) hd); cbn [flat_map app]; rewrite app_nil_r; intros _; exact Hnew.
+Qed.
+
+(* the [released] list of an event names exactly the waiters that went from parked to returned *)
+Lemma tq_released_from_spec : forall old new n k p,
+  In (k, p) (tq_released_from n old new) <->
+  exists m o w, k = n + m /\ nth_error old m = Some o /\ nth_error new m = Some w /\
+                tq_w_ret o = None /\ tq_w_ret w = Some p.
+Proof.
+  induction old as [|o old IH]; intros new n k p.
+  - cbn. split; [intros [] | intros (m & o & w & _ & Hx & _); destruct m; discriminate Hx].
+  - destruct new as [|w new].
+    + cbn. split; [intros [] | intros (m & o' & w' & _ & _ & Hx & _); destruct m; discriminate Hx].
+    + cbn [tq_released_from].
+      assert (Htail : In (k, p) (tq_released_from (S n) old new) <->
+                exists m o' w', k = n + S m /\ nth_error old m = Some o' /\ nth_error new m = Some w' /\
+                                tq_w_ret o' = None /\ tq_w_ret w' = Some p).
+      { rewrite IH. split; intros (m & o' & w' & Hk & H); exists m, o', w'; (split; [lia | exact H]). }
+      assert (Hgen : (exists m o' w', k = n + m /\ nth_error (o :: old) m = Some o' /\ nth_error (w :: new) m = Some w' /\
+                         tq_w_ret o' = None /\ tq_w_ret w' = Some p) <->
+                ((k = n /\ tq_w_ret o = None /\ tq_w_ret w = Some p) \/ In (k, p) (tq_released_from (S n) old new))).
+      { rewrite Htail. split.
+        - intros (m & o' & w' & Hk & Ho & Hw & Hr). destruct m as [|m]; cbn in Ho, Hw.
+          + inversion Ho; inversion Hw; subst. left. split; [lia | exact Hr].
+          + right. exists m, o', w'. auto.
+        - intros [(Hk & Hr)|(m & o' & w' & Hk & Ho & Hw & Hr)].
+          + exists 0, o, w. cbn. repeat split; auto; try lia; tauto.
+          + exists (S m), o', w'. cbn. auto. }
+      rewrite Hgen. destruct (tq_w_ret o) as [po|] eqn:Eo.
+      * split; [intros H; right; exact H | intros [(_ & Hx & _)|H]; [discriminate Hx | exact H]].
+      * destruct (tq_w_ret w) as [pw|] eqn:Ew.
+        -- cbn [In]. split.
+           ++ intros [Hx|H]; [inversion Hx; subst; left; auto | right; exact H].
+           ++ intros [(-> & _ & Hx)|H]; [left; inversion Hx; reflexivity | right; exact H].
+        -- split; [intros H; right; exact H | intros [(_ & _ & Hx)|H]; [discriminate Hx | exact H]].
+Qed.
+
+(* waiter k stays waiter k: same handle for ever, and once it has returned its pair never changes *)
+Lemma tq_waiter_stable_step : forall g a k w, nth_error (tq_waiters g) k = Some w ->
+  exists w', nth_error (tq_waiters (fst (tq_gstep g a))) k = Some w' /\ tq_w_on w' = tq_w_on w /\
+             (forall p, tq_w_ret w = Some p -> tq_w_ret w' = Some p).
+Proof.
+  intros g a k w Hk. destruct a as [b|hd]; cbn [tq_gstep].
+  - destruct (tq_step (tq_base g) b) as [s' e]. cbn [fst tq_waiters].
+    assert (Hrel : forall id, exists w', nth_error (map (tq_release s' id) (tq_waiters g)) k = Some w' /\
+               tq_w_on w' = tq_w_on w /\ (forall p, tq_w_ret w = Some p -> tq_w_ret w' = Some p)).
+    { intros id. rewrite nth_error_map, Hk. cbn. eexists. split; [reflexivity|]. unfold tq_release, tq_w_parked_on.
+      destruct (tq_w_ret w) as [pw|] eqn:Er; [rewrite Er; auto|].
+      destruct (tq_w_on w) as [| |id'] eqn:Eon; try (rewrite Er; split; [auto | intros p Hx; discriminate Hx]).
+      destruct (tq_tid_eqb id' id); cbn; [|rewrite Er]; (split; [auto | intros p Hx; discriminate Hx]). }
+    destruct e; try solve [exists w; auto]. destruct (tq_kind_of t); [apply Hrel | exists w; auto].
+  - cbn [fst tq_waiters]. exists w. split; [|auto]. rewrite nth_error_app1; [exact Hk|]. apply nth_error_Some. congruence.
+Qed.
+
+Lemma tq_waiter_stable_l : forall gs g k w, nth_error (tq_waiters g) k = Some w ->
+  exists w', nth_error (tq_waiters (tq_gfinal g gs)) k = Some w' /\ tq_w_on w' = tq_w_on w /\
+             (forall p, tq_w_ret w = Some p -> tq_w_ret w' = Some p).
+Proof.
+  induction gs as [|a gs IH]; intros g k w Hk; [exists w; auto|].
+  destruct (tq_waiter_stable_step g a k w Hk) as (w1 & Hk1 & Hon1 & Hr1).
+  unfold tq_gfinal. cbn [tq_grun]. destruct (tq_gstep g a) as [g1 e]. cbn [fst] in Hk1.
+  destruct (IH g1 k w1 Hk1) as (w2 & Hk2 & Hon2 & Hr2). unfold tq_gfinal in Hk2.
+  destruct (tq_grun g1 gs) as [g2 tr]. cbn [fst] in *. exists w2. split; [exact Hk2|]. split; [congruence | auto].
+Qed.
+
+Lemma tq_gstep_released_l : forall g b g' e rel, tq_gstep g (TqGBase b) = (g', TqGEBase e rel) ->
+  forall k p, In (k, p) rel <->
+    exists o w, nth_error (tq_waiters g) k = Some o /\ nth_error (tq_waiters g') k = Some w /\
+                tq_w_ret o = None /\ tq_w_ret w = Some p.
+Proof.
+  intros g b g' e rel H k p. cbn [tq_gstep] in H. destruct (tq_step (tq_base g) b) as [s' e0].
+  inversion H; subst. cbn [tq_waiters]. rewrite tq_released_from_spec. cbn [Nat.add].
+  split; [intros (m & o & w & -> & Hr); eauto | intros (o & w & Hr); exists k, o, w; auto].
+Qed.
+
+Lemma tq_get_full2_l : forall cap progs sched i j h,
+  nth_error (nth i progs []) j = Some (TqCallback (Some h)) ->
+  let s := tq_final (tq_init cap progs) sched in
+  let done := tq_done_in (tq_trace (tq_init cap progs) sched) (i, j) in
+  tq_get2 s (TqHTask (i, j)) = (if done then Some h else None) /\
+  tq_get1 s (TqHTask (i, j)) = (if done then Some (fst h) else None).
+Proof.
+  intros cap progs sched i j h Hop. cbn zeta. unfold tq_get1.
+  rewrite (tq_get_full_l cap progs sched i j h Hop).
+  destruct (tq_done_in (tq_trace (tq_init cap progs) sched) (i, j)); split; reflexivity.
+Qed.
